@@ -42,6 +42,12 @@ def budget(tier):
     return 6000 if tier == "quick" else 60000
 
 
+def _indefinite(a, b, l1, k):
+    """Hermitian, indefinite: X + X^dagger with X = a . b^dagger over the legs l1."""
+    X = yastn.tensordot(a, b, axes=(tuple(l1), tuple(l1)), conj=(0, 1))
+    return X + X.conj().transpose(axes=tuple(range(k, 2 * k)) + tuple(range(k)))
+
+
 def _generating():
     return getattr(core.current_world(), "generating", False)
 
@@ -235,15 +241,26 @@ class OpTruncSvd(e1.Op):
             k = len(l0)
             args = {"kind": "eigh", "gram": [l0, l1], "axes": [list(range(k)), list(range(k, 2 * k))], "s": rng.choice([-1, 1])}
             x = g.val(a)
+            ins_ = [a]
             G = yastn.tensordot(x, x, axes=(tuple(l1), tuple(l1)), conj=(0, 1))
+            if rng.random() < 0.45 and not any(x.n):
+                # an INDEFINITE Hermitian input (X + X^dagger from two different tensors): 'LM' orders by magnitude, 'LR' by signed value
+                b = e1.partner_same(g, a, allow_self=False)
+                if b is not None and b != a and not any(g.val(b).n):
+                    ins_ = [a, b]
+                    args["indef"] = True
+                    args["which"] = rng.choice(["LM", "LM", "LR"])
+                    G = _indefinite(x, g.val(b), l1, k)
             S, _ = yastn.eigh(G, axes=(tuple(range(k)), tuple(range(k, 2 * k))))
             spec = sectors_of(S)
+            if args.get("which") == "LM":
+                spec = {t: np.abs(v) for t, v in spec.items()}
         if not spec:
             return None
         args["limits"] = draw_limits(rng, spec)
         if isinstance(args["limits"]["D_block"], list):
             args["limits"]["D_block"] = [[list(t), rng.randint(0, len(v) + 1)] for t, v in spec.items() if rng.random() < 0.8]
-        return {"op": "trunc_svd", "in": [a], "args": args}
+        return {"op": "trunc_svd", "in": ins_ if kind != "svd" else [a], "args": args}
 
     def run(self, task, rec, ins):
         ar, a = rec["args"], ins[0]
@@ -261,15 +278,21 @@ class OpTruncSvd(e1.Op):
         else:
             l0, l1 = ar["gram"]
             G = yastn.tensordot(a, a, axes=(tuple(l1), tuple(l1)), conj=(0, 1))
-            S, U = yastn.eigh_with_truncation(G, axes=ax, sU=ar["s"], which="LR", **kw)
+            wh = ar.get("which", "LR")
+            if ar.get("indef"):
+                G = _indefinite(a, ins[1], l1, len(l0))
+            S, U = yastn.eigh_with_truncation(G, axes=ax, sU=ar["s"], which=wh, **kw)
             if _generating():
                 return []
-            Sfull, _ = yastn.eigh(G, axes=ax, sU=ar["s"], which="LR")
+            Sfull, _ = yastn.eigh(G, axes=ax, sU=ar["s"], which=wh)
             ref = G
             k = len(l0)
             rec_t = yastn.tensordot(U @ S, U, axes=(k, k), conj=(0, 1))
         full = sectors_of(Sfull)
         kept = sectors_of(S)
+        if ar.get("which") == "LM":      # magnitudes compete (and enter the error identity squared, like signed values do)
+            full = {t: np.abs(v) for t, v in full.items()}
+            kept = {t: np.abs(v) for t, v in kept.items()}
         # values at round-off level (they differ between LAPACK drivers, even in sign) are free: neither their
         # selection nor their order is asserted
         smax = max([float(np.max(np.abs(v))) for v in full.values() if len(v)] or [0.0])
